@@ -73,7 +73,8 @@ ProxySecrets(c) == (IF c.auth THEN {"proxyAuth"} ELSE {}) \cup (IF c.phdr # "non
 CallerData(c)   == {"callerHeader"} \cup (IF c.body THEN {"callerBody"} ELSE {})
 (* the CONNECT names exactly the origin's host:port and carries the proxy's headers and
    credentials - never anything of the caller's *)
-WConnect(c, t) == [op |-> "write", what |-> "connect-req", tmo |-> t, names |-> "origin", carries |-> Marks(ProxySecrets(c))]
+WConnect(c, t) == [op |-> "write", what |-> "connect-req", tmo |-> t, names |-> "origin", carries |-> Marks(ProxySecrets(c)),
+                   dup |-> FALSE]    \* a proxy header overrides the built-in Host / Accept, it does not repeat them
 (* SOCKS: exactly the configured method is offered; the CONNECT command names the origin *)
 WGreet(c, t)   == [op |-> "write", what |-> "socks-greet", tmo |-> t, method |-> IF c.auth THEN "userpass" ELSE "noauth"]
 WSAuth(c, t)   == [op |-> "write", what |-> "socks-auth", tmo |-> t]
@@ -173,6 +174,7 @@ Finish ==
                                           THEN (IF cs.auth THEN {"proxyAuth"} ELSE {})
                                                \cup (IF cs.phdr = "distinct" THEN {"proxyHeader"} ELSE {})
                                           ELSE {})),
+                          dup |-> FALSE,    \* merged: a name given by both appears once (the caller's)
                           tmo |-> Tmo(cs, "write"), res |-> "ok"])
   /\ res' = "ok"
   /\ UNCHANGED <<cs, i, rl, nd, strm, layers>>
@@ -259,6 +261,8 @@ SecretsOnProxyHopOnly ==
 CallerDataNotInConnect ==
   \A j \in DOMAIN ops : (ops[j].op = "write" /\ ops[j].what = "connect-req") =>
       ~\E m \in DOMAIN ops[j].carries : ops[j].carries[m] \in {"callerHeader", "callerBody"}
+MergedNotRepeated ==
+  \A j \in DOMAIN ops : ("dup" \in DOMAIN ops[j]) => ~ops[j].dup
 SocksAsConfigured ==
   \A j \in DOMAIN ops : (ops[j].op = "write" /\ ops[j].what = "socks-greet") =>
       ops[j].method = (IF cs.auth THEN "userpass" ELSE "noauth")
